@@ -81,6 +81,8 @@ type Evaluator struct {
 	OnStore  func(s *ssa.Store, val V)                    // observe every store reached
 	Inline   func(f *ssa.Function) bool                   // may the callee be inlined (pure accessor)?
 	OnInstr  func(in ssa.Instruction)                     // observe every instruction executed
+	Value    func(v ssa.Value) (V, bool)                  // any value the scenario wants to define (consulted first)
+	Tuple    func(v ssa.Value) ([]V, bool)                // tuple-valued instructions: v,ok := <-ch / m[k] / x.(T), range Next
 	MaxSteps int
 	depth    int
 	cur      *frame // frame of the innermost Exec in progress (for Peek/Mem from hooks)
@@ -266,6 +268,16 @@ func (e *Evaluator) Exec(fn *ssa.Function, args []V) Outcome {
 					e.OnCall(x.(ssa.CallInstruction), nil)
 				}
 			case ssa.Value:
+				if _, isTuple := x.Type().(*types.Tuple); isTuple && e.Tuple != nil {
+					if rs, ok := e.Tuple(x); ok && x.Referrers() != nil {
+						for _, r := range *x.Referrers() {
+							if ex, ok := r.(*ssa.Extract); ok && ex.Index < len(rs) {
+								fr.vals[ex] = rs[ex.Index]
+							}
+						}
+						continue
+					}
+				}
 				// eager: the value an instruction has is the one computed when it executes
 				if _, isExtract := x.(*ssa.Extract); !isExtract {
 					fr.vals[x] = e.compute(fr, x)
@@ -287,6 +299,11 @@ func (e *Evaluator) val(fr *frame, v ssa.Value) V {
 }
 
 func (e *Evaluator) compute(fr *frame, v ssa.Value) V {
+	if e.Value != nil {
+		if r, ok := e.Value(v); ok {
+			return r
+		}
+	}
 	switch x := v.(type) {
 	case *ssa.Const:
 		if x.Value == nil {
